@@ -15,6 +15,9 @@ import ast
 from .index import AnalysisError, dotted
 
 
+_MISSING = object()
+
+
 class Inconclusive(Exception):
     pass
 
@@ -199,6 +202,9 @@ class Evaluator:
                 return self.externals[e.id]
             if e.id in ('True', 'False', 'None'):
                 return {'True': True, 'False': False, 'None': None}[e.id]
+            v = self.module_value(e.id, depth)
+            if v is not _MISSING:
+                return v
             raise Inconclusive("name %s" % e.id)
         if isinstance(e, ast.Attribute):
             d = dotted(e)
@@ -269,6 +275,29 @@ class Evaluator:
             env[e.target.id] = v
             return v
         raise Inconclusive("expression %s" % type(e).__name__)
+
+    def module_value(self, name, depth):
+        """a module-level name of the package bound exactly once, to an expression this evaluator can read
+        (`_TASK_OVER = asyncio.futures._FINISHED`)"""
+        cache = self.__dict__.setdefault('_modvals', {})
+        if name in cache:
+            return cache[name]
+        found = []
+        for mod in self.prog.modules.values():
+            for n in mod.tree.body:
+                if isinstance(n, (ast.Assign, ast.AnnAssign)) and n.value is not None and any(
+                        isinstance(t, ast.Name) and t.id == name
+                        for t in (n.targets if isinstance(n, ast.Assign) else [n.target])):
+                    found.append(n.value)
+        val = _MISSING
+        if len(found) == 1 and depth < self.max_depth:
+            cache[name] = _MISSING
+            try:
+                val = self.expr(found[0], {}, depth + 1)
+            except (Inconclusive, Raised):
+                val = _MISSING
+        cache[name] = val
+        return val
 
     def comp(self, e, env, depth):
         out = []
